@@ -105,7 +105,12 @@ struct Inner {
     yielding:     Vec<bool>,
     fair_next:    Vec<u32>,
     fair_turn:    Vec<u32>,
+    /// (tick, thread, tag) of the library's yield points whose tag is in `MARK_TAGS` (mechanism-level facts for the classifiers)
+    marks:        Vec<(u64, usize, &'static str)>,
 }
+
+/// yield-point tags recorded with their logical time: the bounds of the live-listener-list mutation window (streams_manager.rs)
+const MARK_TAGS: [&str; 4] = ["sm.create.begin", "sm.drop.begin", "sm.sync.done", "sm.used_streams.read"];
 
 pub struct Sched {
     m:   Mutex<Inner>,
@@ -217,6 +222,7 @@ struct ThreadHook { sched: Arc<Sched>, tid: usize }
 impl Hook for ThreadHook {
     fn before(&self, addr: usize, kind: OpKind, tag: &'static str) {
         self.sched.sched_point(self.tid);
+        if kind == OpKind::Yield && MARK_TAGS.contains(&tag) { let mut g = self.sched.m.lock().unwrap(); g.ticks += 1; let t = g.ticks; g.marks.push((t, self.tid, tag)); }
         if TRACE_OPS.load(Ordering::Relaxed) { println!("    step {:4} T{} {:?} {} {}", self.sched.step(), self.tid, kind, addr_name(addr), tag); }
     }
     fn after(&self, addr: usize, kind: OpKind, wrote: bool, failed: bool) {
@@ -248,6 +254,7 @@ pub struct Outcome {
     pub dead_waker_uses: u32,
     /// ... of which: the task had switched to a newer waker (the channel dropped the old one while replacing it)
     pub dead_waker_uses_superseded: u32,
+    pub marks: Vec<(u64, usize, &'static str)>,
 }
 
 impl Sched {
@@ -310,6 +317,7 @@ impl Sched {
                 steps_of: vec![0; n],
                 steps_in_op: vec![0; n],
                 solo_steps: vec![0; n],
+                marks: vec![],
             }),
             cvs: (0..n).map(|_| Condvar::new()).collect(),
             ctl: Condvar::new(),
@@ -597,6 +605,7 @@ impl Sched {
             wakes: g.wakes.clone(),
             dead_waker_uses: g.dead_waker_uses,
             dead_waker_uses_superseded: g.dead_waker_uses_superseded,
+            marks: g.marks.clone(),
         }
     }
 }
